@@ -36,8 +36,8 @@ TRUSTED = [
     "(acquire the lock; copy to <name>.<pid>.tmp then os.replace; look a missing version up in the installed folder; "
     "tolerant stamp read + atomic stamp write). With VERIF_C19_FIXED=1 a tree carrying the patches is driven against "
     "these programs and the oracle accepts no known-finding class; with the default 0 the code as it is is driven "
-    "against KLoad/KRefresh. In the children portalocker.Lock.acquire(timeout) is replaced by MAXTRIES non-blocking "
-    "real attempts (one gate each), the model's max_tries",
+    "against KLoad/KRefresh. In the children the real portalocker.Lock is used (file opened once, every attempt "
+    "locks that open file); only its retry pacing is replaced: MAXTRIES attempts, one gate each = the model's max_tries",
 ]
 ASSUMPTIONS = [
     "process death = the process stops between two file operations (or between two chunks of a copy); the model's "
@@ -77,10 +77,11 @@ class _Instr:
         self.read_status = None   # status of the file handed to load_schema
         self.enters = []          # (write_time, "ok"/"CacheException"/..., lockfile locked by us?)
         self.populated = False
+        self.inside = False       # between a successful CacheLock.__enter__ and the end of its __exit__
 
     # -- gate: report the next operation, wait for the controller
     def gate(self, *name):
-        self.conn.send(("gate", list(name)))
+        self.conn.send(("gate", list(name), bool(self.inside)))
         msg = self.conn.recv()
         self.vtime = float(msg[1])
 
@@ -158,29 +159,24 @@ class _Instr:
 
         import portalocker as real_pl
 
-        class GatedLock:
-            """portalocker.Lock whose acquire(timeout) is MAXTRIES non-blocking attempts, one gate each"""
-            def __init__(s, filename, *a, **k):
-                s.filename, s.real = filename, None
+        class GatedLock(real_pl.Lock):
+            """the real portalocker.Lock (the file is opened ONCE, every attempt tries to lock that open file);
+            only the pacing of the retry loop is replaced: MAXTRIES attempts, one gate each, no sleeping"""
 
-            def acquire(s, *a, **k):
-                mine = os.path.realpath(os.path.dirname(s.filename)) == I.dir
-                for _ in range(MAXTRIES):
-                    if mine:
-                        I.gate("Acquire")
-                    lk = real_pl.Lock(s.filename, timeout=0, fail_when_locked=True)
-                    try:
-                        lk.acquire()
-                        s.real = lk
-                        return lk
-                    except real_pl.exceptions.LockException:
-                        pass
-                raise real_pl.exceptions.LockException("lock attempts exhausted (C19 harness)")
+            def _mine(s):
+                return os.path.realpath(os.path.dirname(str(s.filename))) == I.dir
 
-            def release(s):
-                if s.real is not None:
-                    s.real.release()
-                    s.real = None
+            def _get_fh(s):
+                if s._mine():
+                    I.gate("Acquire")          # first attempt = open (creating the file) + try to lock
+                return super()._get_fh()
+
+            def _timeout_generator(s, timeout, check_interval):
+                yield 0
+                for i in range(1, MAXTRIES):
+                    if s._mine():
+                        I.gate("Acquire")      # a further attempt on the same open file
+                    yield i
 
         class PLProxy:
             exceptions = real_pl.exceptions
@@ -247,6 +243,7 @@ class _Instr:
                     I.enters.append([bool(lk.write_time), type(e).__name__, stamp_empty])
                 raise
             if mine:
+                I.inside = True
                 I.enters.append([bool(lk.write_time), "ok", stamp_empty])
                 if I.spec.get("kind") == "hold":
                     I.gate("Inside")
@@ -257,7 +254,11 @@ class _Instr:
                 I.gate("ExistsEnd")
                 I.gate("Exit")
                 I.populated = True
-            return orig_exit(lk, *a)
+            try:
+                return orig_exit(lk, *a)
+            finally:
+                if os.path.realpath(lk.cache_folder) == I.dir:
+                    I.inside = False
 
         orig_load = hio.load_schema
 
@@ -470,7 +471,8 @@ def run_case(case):
     prepare_dir(d, inst, files, case.get("init", {}))
     vtime = VT0
     procs = []
-    out = {"id": case["id"], "events": [], "gates": [], "results": [], "killed": [], "lock_probe": None}
+    out = {"id": case["id"], "events": [], "gates": [], "results": [], "killed": [], "lock_probe": None,
+           "inside": [], "overlap": None}
     try:
         for spec in case["procs"]:
             spec = dict(spec, dir=d, vtime=vtime, inst=inst)
@@ -485,12 +487,23 @@ def run_case(case):
                 os._exit(0)
             b.close()
             p = _P()
-            p.pid, p.conn, p.state, p.at, p.result = pid, a, "live", None, None
+            p.pid, p.conn, p.state, p.at, p.result, p.inside = pid, a, "live", None, None, False
             procs.append(p)
         for p in procs:
             _wait(p)
 
         def do(ev):
+            # after every executed event: who is inside 'with CacheLock' (reported by the processes themselves)
+            n0 = len(out["events"])
+            do_raw(ev)
+            if len(out["events"]) > n0:
+                ins = [i for i, q in enumerate(procs) if q.state == "live" and q.inside]
+                out["inside"].append(ins)
+                if len(ins) >= 2 and out["overlap"] is None:
+                    out["overlap"] = {"step": n0, "event": out["events"][n0], "inside": ins,
+                                      "at": [procs[i].at for i in ins], "os_locked": _probe(d, procs)["os_locked"]}
+
+        def do_raw(ev):
             nonlocal vtime
             k, x = ev
             if k == "T":
@@ -505,6 +518,7 @@ def run_case(case):
                 os.kill(p.pid, signal.SIGKILL)
                 os.waitpid(p.pid, 0)
                 p.state = "dead"
+                p.inside = False
                 out["killed"].append([x, p.at])
                 out["events"].append(["C", x])
                 out["gates"].append(None)
@@ -563,16 +577,16 @@ def _wait(p, timeout=120):
         return
     if msg[0] == "gate":
         p.at = msg[1]
+        p.inside = bool(msg[2])
     else:
         p.state = "done"
+        p.inside = False
         p.result = msg[1]
 
 
 def _probe(d, procs):
     """who is inside 'with CacheLock' right now, and is the lock file actually locked?"""
-    inside = [i for i, p in enumerate(procs) if p.state == "live" and p.at and
-              p.at[0] in ("Exists", "Open", "Write", "Replace", "ExistsEnd", "Exit", "Inside", "Net", "StampOpen",
-                          "StampWrite", "XExit")]
+    inside = [i for i, p in enumerate(procs) if p.state == "live" and p.inside]
     import portalocker
     fn = os.path.join(d, "cache_lock.lock")
     existed = os.path.exists(fn)
@@ -603,7 +617,7 @@ def model_line(case, nfiles, th):
         kinds.append({"load": lambda: ["LF" if FIXED else "L", s["vindex"]],
                       "refresh": lambda: "RF" if FIXED else "R",
                       "move": lambda: ["D", s["findex"]]}[s["kind"]]())
-    return C.to_sx([[nfiles, NCH, th, MAXTRIES], [fl, st, init.get("lockfile", 0), VT0], kinds,
+    return C.to_sx([[nfiles, NCH, th, MAXTRIES, 0], [fl, st, init.get("lockfile", 0), VT0], kinds,
                     [list(e) for e in case["events_executed"]]])
 
 
@@ -758,14 +772,16 @@ def oracle(case, out, res, nfiles):
         if final.get("files", {}).get(idx, ("missing",))[0] != "identical":
             res.report("safe-move-atomic", cid, "finished move did not leave the complete file")
     # clause: two holders never overlap / a contender gives up with the cache error
-    pr = out.get("lock_probe")
-    if pr:
-        if len(pr["inside"]) >= 2:
-            if not pr["os_locked"]:
-                res.report("lock-exclusive", cid, f"processes {pr['inside']} are inside 'with CacheLock' together and "
-                                                  "the lock file is not locked", fid=_fid("C19-F1"))
-            else:
-                res.report("lock-exclusive", cid, f"processes {pr['inside']} overlap although the lock is held")
+    # (mutual exclusion is checked on the real processes after EVERY event of EVERY schedule: each process
+    #  reports whether it is between a successful CacheLock.__enter__ and the end of __exit__)
+    ov = out.get("overlap")
+    if ov:
+        msg = (f"after event #{ov['step']} {ov['event']} processes {ov['inside']} (blocked at {ov['at']}) are inside "
+               f"'with CacheLock' for one directory together; lock file locked by someone: {ov['os_locked']}")
+        if not ov["os_locked"]:
+            res.report("lock-exclusive", cid, msg, fid=_fid("C19-F1"))
+        else:
+            res.report("lock-exclusive", cid, msg)
     if case.get("external_lock"):
         r = out["results"][0]
         ent = (r or {}).get("enters") or []
@@ -803,6 +819,12 @@ def compare(case, out, m, res, nfiles):
         sum(1 for k, at in out["killed"] if at and at[0] in ("StampOpen", "StampWrite", "XExit"))
     if mnet != inet:
         diffs.append(f"refreshes that reached the network impl={inet} model={mnet}")
+    if len(m) > 8:
+        mins = [[int(x) for x in l] for l in m[8]]
+        if mins != out["inside"]:
+            k = next((i for i, (a, b) in enumerate(zip(mins, out["inside"])) if a != b), -1)
+            diffs.append(f"who is inside 'with CacheLock' differs after event {k}: impl {out['inside'][k:k + 1]} "
+                         f"model {mins[k:k + 1]}")
     mpop = [int(p[2]) for p in m[7]]
     ipop = [1 if (r and r.get("populated")) else 0 for r in out["results"]]
     for i, (a, b) in enumerate(zip(mpop, ipop)):
@@ -849,6 +871,34 @@ def build_cases(rng, tier, files, th, wide):
     add("F1 lock overlap: both inside with CacheLock", [L, L], [["R", 0], ["R", 1]] * 3,
         probe_lock_after=5 if FIXED else 3)
     add("F1 lock timeout: contender while lock file is held", [{"kind": "hold"}], [], external_lock=True)
+    # -- lock queues: >= 3 contenders that all found the folder empty; a waiter is already blocked inside acquire
+    #    (lock file open, an attempt failed) when the holder leaves / is killed; later arrivals try afterwards
+    pop = 5 * nf + 2 if FIXED else 4 * nf + 2
+    add("lock queue: A holds, B waits inside acquire, A leaves, B enters and stays, C tries", [L, L, L],
+        [["R", 0], ["R", 1], ["R", 2]] + [["R", 0]] * 2 + [["R", 1]] * 2 + [["R", 0]] * (pop + 6) + [["R", 1]] * 3 +
+        [["R", 2]] * 5)
+    add("lock queue: holder killed while B waits, C arrives later", [L, L, L],
+        [["R", 0], ["R", 1], ["R", 2]] + [["R", 0]] * 6 + [["R", 1]] * 2 + [["C", 0]] + [["R", 1]] * 4 + [["R", 2]] * 5)
+    for k in range(8 if tier == "quick" else 60):
+        n = rng.choice([3, 3, 4])
+        ps = [load_spec(rng.choice(versions), files) for _ in range(n)]
+        order = list(range(n))
+        rng.shuffle(order)
+        sch = [["R", i] for i in order]                     # everybody lists the empty folder
+        a, b, rest = order[0], order[1], order[2:]
+        sch += [["R", a]] * 2 + [["R", b]] * 2              # a holds; b: threshold test, first attempt fails
+        for c_ in rest:
+            sch += [["R", c_]] * rng.choice([0, 1, 2])      # others may start waiting too
+        if rng.random() < 0.25:
+            sch += [["R", a]] * rng.randint(1, pop) + [["C", a]]
+        else:
+            sch += [["R", a]] * (pop + rng.choice([0, 1, 6]))   # a leaves (and maybe finishes its load)
+        sch += [["R", b]] * rng.choice([1, 2, 4])           # b's next attempt: it enters and stays inside
+        for c_ in rest:
+            sch += [["R", c_]] * rng.choice([2, 3, 5])      # later arrivals must not get in while b is inside
+        for _ in range(rng.randint(0, 30)):
+            sch.append(["R", rng.randrange(n)])
+        add("lock queue: random arrivals of %d contenders" % n, ps, sch)
     add("single load of an empty cache", [L], [])
     add("two loads one after the other", [L, L], [["R", 0]] * (full + 2))
     # -- refresh interval
@@ -955,7 +1005,7 @@ def run_external_lock(case):
             os._exit(0)
         b.close()
         p = _P()
-        p.pid, p.conn, p.state, p.at, p.result = pid, a, "live", None, None
+        p.pid, p.conn, p.state, p.at, p.result, p.inside = pid, a, "live", None, None, False
         _wait(p)
         n = 0
         while p.state == "live" and n < 20:
